@@ -199,6 +199,13 @@ void run_case(Src &s, Ctx &c) {
         if (!t2 || strcmp(t2, "two") != 0) c.fail(FUNC, "encode:query-clobbers-strtok", "after qparse_queries the caller's strtok(NULL) continues with %s instead of its own next token", t2 ? hexs(t2, strnlen(t2, 16)).c_str() : "NULL");
         c.nontrivial = nt2; c.tag("query"); c.check_san("query parser"); return; }
     std::string x = gen_bytes(s, 4096, false);
+    if (s.chance(1, 40)) {   // far beyond "several KiB": 64-200 KiB of one content class (growth strategies of the encoders' buffers)
+        size_t n = ((size_t)64 << 10) + (size_t)s.range(0, 136 << 10); int k = (int)s.range(0, 3);
+        x.assign(n, k == 0 ? '\0' : k == 1 ? '\xff' : 'a');
+        if (k == 3) { uint32_t h = 2166136261u; for (size_t i = 0; i < n; i++) { h = (h ^ (uint32_t)i) * 16777619u; x[i] = (char)(h >> 13); } }
+        else if (s.boolean()) x[n - 1 - (size_t)s.range(0, 7)] = 'z';
+        c.tag("input_of_64_to_200_KiB");
+    }
     c.op("%s round trip + format, %zu bytes: %s", tgt == 0 ? "url" : tgt == 1 ? "base64" : "hex", x.size(), hexs(x, 16).c_str());
     if (tgt == 0) { check_url(c, x); c.tag("url"); bool esc = false; for (unsigned char ch : x) if (forbidden_literal(ch)) esc = true; c.nontrivial = esc; }
     else if (tgt == 1) { check_b64(c, x); c.tag("base64"); c.nontrivial = x.size() % 3 != 0; }
